@@ -86,7 +86,7 @@ fn main() {
         let mut x = seed.wrapping_mul(0x9E3779B97F4A7C15) | 1;
         for i in 0..count {
             let data: Vec<u16> = (0..300).map(|_| { x ^= x << 13; x ^= x >> 7; x ^= x << 17; (x >> 20) as u16 }).collect();
-            let c = checks::c01::case_from_choices(&data, checks::c01::opts(vec![]));
+            let c = checks::c01::case_from_choices(&data, if std::env::var("GEN_C04").is_ok() { checks::c04::opts(vec![]) } else { checks::c01::opts(vec![]) });
             println!(";;; ---- program {} features {:?}", i, c.features);
             println!("{}", c.text);
             match progcheck::model_run(&c.program) {
@@ -118,7 +118,15 @@ fn main() {
         }
         i += 1;
     }
-    let ctx = Ctx::new(&prop, tier);
-    let code = checks::dispatch(&ctx, replay.as_deref());
+    // the check runs on a thread with a large stack: the AST reducer and the renderers recurse on program depth
+    let code = std::thread::Builder::new()
+        .stack_size(1 << 30)
+        .spawn(move || {
+            let ctx = Ctx::new(&prop, tier);
+            checks::dispatch(&ctx, replay.as_deref())
+        })
+        .expect("spawn")
+        .join()
+        .unwrap_or(2);
     std::process::exit(code);
 }
